@@ -208,7 +208,25 @@ class InotifyEmitter(EventEmitter):
         # Always listen to delete self
         event_mask = InotifyConstants.IN_DELETE_SELF
 
-        for cls in self._event_filter:
+        if self.watch.is_recursive:
+            # Whatever the filter, following sub-directories needs their creations and moves.
+            event_mask |= InotifyConstants.IN_MOVE | InotifyConstants.IN_CREATE
+
+        # A base class in the filter stands for every concrete event class derived from it.
+        concrete_classes = (
+            DirCreatedEvent,
+            DirDeletedEvent,
+            DirModifiedEvent,
+            DirMovedEvent,
+            FileClosedEvent,
+            FileClosedNoWriteEvent,
+            FileCreatedEvent,
+            FileDeletedEvent,
+            FileModifiedEvent,
+            FileMovedEvent,
+            FileOpenedEvent,
+        )
+        for cls in {c for c in concrete_classes for f in self._event_filter if issubclass(c, f)}:
             if cls in {DirMovedEvent, FileMovedEvent}:
                 event_mask |= InotifyConstants.IN_MOVE
             elif cls in {DirCreatedEvent, FileCreatedEvent}:
@@ -219,12 +237,14 @@ class InotifyEmitter(EventEmitter):
                     | InotifyConstants.IN_ATTRIB
                     | InotifyConstants.IN_MODIFY
                     | InotifyConstants.IN_CREATE
+                    | InotifyConstants.IN_DELETE
                     | InotifyConstants.IN_CLOSE_WRITE
                 )
             elif cls is FileModifiedEvent:
                 event_mask |= InotifyConstants.IN_ATTRIB | InotifyConstants.IN_MODIFY
             elif cls in {DirDeletedEvent, FileDeletedEvent}:
-                event_mask |= InotifyConstants.IN_DELETE
+                # A move out of the watched tree is a deletion; both halves so that renames still pair up.
+                event_mask |= InotifyConstants.IN_DELETE | InotifyConstants.IN_MOVE
             elif cls is FileClosedEvent:
                 event_mask |= InotifyConstants.IN_CLOSE_WRITE
             elif cls is FileClosedNoWriteEvent:
